@@ -302,11 +302,13 @@ def equationAt (ops : FieldOps F) (ext : FieldExt F) (ev : F → Rat) (Tmax : Ra
     let u ← netOf d nnKey
     pure [ev (massConservation ops x.length (fun i => nth ops u i))]
   | .navierStokes uKey pKey, .statio [_, _], .dict d => do
+    let u_params := extractParams p uKey
     let u ← netOf d uKey
     let pn ← scalarNet d pKey
-    -- `params_dict.eq_params["rho"]`, `params_dict.eq_params["nu"]`: read at the TOP level of the dict
-    let rho ← getScalar p "rho"
-    let nu ← getScalar p "nu"
+    -- `u_params.eq_params["rho"]`, `u_params.eq_params["nu"]`: read through `extract_params(u_key)`
+    -- (`extract_params(p_key)` only feeds the pressure network)
+    let rho ← getScalar u_params "rho"
+    let nu ← getScalar u_params "nu"
     pure ((navierStokes ops nu rho (fun i => nth ops u i) pn).map ev)
   | _, _, _ => .error "outside the modelled signatures"
 
